@@ -76,7 +76,10 @@ class C12(Prop):
              "tracker at random steps including between its exec and its signal.signal(SIG_IGN) calls; the tracker "
              "SIGKILLed 1-3 times, each time followed by a tracked operation. Checked: one tracker pid seen by every "
              "process, tracker survives the signals, end-of-life sweep only after the last member is gone, restart "
-             "with warning and a working new tracker")
+             "with warning and a working new tracker; a crash family in which the tracker is SIGKILLed at a random "
+             "operation of its own life while nested executors create semaphores at every level (everything that starts "
+             "after the death must succeed; an operation in flight may fail); loky_init_main children whose re-imported "
+             "main module performs a tracked operation at import time")
     assumptions = ["signals are process-directed with per-thread masks inherited across exec; Python-level handlers are not modelled",
                    "after a tracker restart only the restarting process is required to report to the new tracker"]
 
